@@ -454,6 +454,19 @@ func Generate(t *rapid.T, p *Profile) *Program {
 	for k := 0; k < n; k++ {
 		g.stmt()
 	}
+	// a writer and a reader of a global that are not otherwise on any data path (they have no parameters and no
+	// results): the flow exists only through the global
+	type gpair struct{ write, read string }
+	var extra []string
+	if g.chance(30, "globalpair") && !p.Off["global-pair"] {
+		pairs := []gpair{{"GS = *source2(%d)", "GS.A"}, {"G0 = source1(%d)", "G0"}, {"GP = source2(%d)", "GP.A"}, {"GL = source3(%d)", "GL[0]"},
+			{"GX = source4(%d)", "GX"}, {"GS = *source2(%d)", "GS"}, {"GL = source3(%d)", "GL"}}
+		gp := pairs[g.intn(len(pairs), "gpairkind")]
+		g.emit("gwriter()")
+		g.emit("greader()")
+		g.feat("global-writer-reader-pair")
+		extra = []string{gp.write, gp.read}
+	}
 	if p.Go {
 		g.emit("waitall()")
 	}
@@ -463,6 +476,28 @@ func Generate(t *rapid.T, p *Profile) *Program {
 	}
 	g.indent--
 	g.emit("}")
+	if extra != nil {
+		g.emit("")
+		g.emit("func gwriter() {")
+		if g.p.Enter {
+			g.emit("\tenter(997)")
+		}
+		wl := g.nextLine()
+		g.emit("\t"+extra[0], wl)
+		g.prog.Sources[wl] = "source"
+		g.prog.SrcFunc[wl] = "gwriter"
+		g.emit("}")
+		g.emit("")
+		g.emit("func greader() {")
+		if g.p.Enter {
+			g.emit("\tenter(998)")
+		}
+		rl := g.nextLine()
+		g.emit("\tsink1(%d, %s)", rl, extra[1])
+		g.prog.Sinks[rl] = "sink1"
+		g.prog.SinkFunc[rl] = "greader"
+		g.emit("}")
+	}
 	g.prog.Main = strings.Join(g.lines, "\n") + "\n"
 	g.prog.NBits = g.nbits
 	if g.prog.NBits > 12 {
